@@ -11,6 +11,11 @@ import (
 )
 
 func BuildSchemaValidationV31(schema *base.Schema, validationString string, fieldInterface string) {
+	if schema == nil {
+		// A reference to a shared component (enum / alias / struct typed parameter or field) has no inline
+		// schema of its own: usage-site validators do not decorate (or rewrite) the shared component
+		return
+	}
 	// Parse and apply validation rules from the Validator field
 	validationRules := strings.Split(validationString, ",")
 	for _, rule := range validationRules {
